@@ -729,14 +729,35 @@ theorem rl_trySet_total (m : Mode) {b : RLBuilder} (h : RlInv b) (start len : Na
   · obtain ⟨b', hb, hi, _⟩ := rl_trySet_spec m h start len hu (by omega) (by omega)
     exact Or.inr ⟨b', hb, hi, by omega, by omega⟩
 
-/-! ### F9: `set_len` forgets to move the (empty) pending run -/
+/-! ### F9: `set_len` as first written forgot to move the (empty) pending run
 
-/-- `set_len` does keep the counter part of the invariant … -/
+The model keeps the original code as `RLBuilder.setLenOld`; `RLBuilder.setLen` is the repaired
+function (it resets the pending run to `(len, 0)`). -/
+
+/-- `set_len` as first written never decreases `len` either -/
+theorem setLenOld_len_ge {m : Mode} {b b' : RLBuilder} {n : Nat} (h : b.setLenOld m n = ok b') :
+    b.len ≤ b'.len ∧ b'.len = max b.len n ∧ b'.ones = b.ones := by
+  unfold RLBuilder.setLenOld at h
+  split at h
+  · next hn =>
+    cases h0 : b.flush m with
+    | fault f => rw [h0] at h; cases h
+    | ok b0 =>
+      rw [h0] at h; cases h
+      have := flush_len_ones h0
+      refine ⟨?_, ?_, this.2⟩
+      · show b.len ≤ n; omega
+      · show n = max b.len n; omega
+  · next hn =>
+    cases h
+    exact ⟨Nat.le_refl _, by omega, rfl⟩
+
+/-- the original `set_len` does keep the counter part of the invariant … -/
 theorem setLen_weak (m : Mode) {b : RLBuilder} (h : RlInv b) (n : Nat) (hn : n < U64) :
-    ∃ b', b.setLen m n = ok b' ∧ b'.len = max b.len n ∧ b'.ones = b.ones ∧
+    ∃ b', b.setLenOld m n = ok b' ∧ b'.len = max b.len n ∧ b'.ones = b.ones ∧
       b'.len < U64 ∧ b'.ones ≤ b'.len ∧ b'.run.2 ≤ b'.ones ∧ b'.tail ≤ b'.run.1 ∧
       (b.len < n → b'.run = (b.len, 0)) := by
-  unfold RLBuilder.setLen
+  unfold RLBuilder.setLenOld
   by_cases hc : n > b.len
   · rw [if_pos hc]
     obtain ⟨b0, hb0, f1, f2, f3, f4, f5⟩ := flush_spec m h
@@ -753,7 +774,7 @@ theorem setLen_weak (m : Mode) {b : RLBuilder} (h : RlInv b) (n : Nat) (hn : n <
 /-- … but whenever it really extends the vector it breaks `run.1 + run.2 = len`:
 the empty pending run stays at the old length. -/
 theorem setLen_breaks_inv (m : Mode) {b b' : RLBuilder} (h : RlInv b) (n : Nat) (hn : n < U64)
-    (hlt : b.len < n) (hb : b.setLen m n = ok b') : ¬ RlInv b' := by
+    (hlt : b.len < n) (hb : b.setLenOld m n = ok b') : ¬ RlInv b' := by
   obtain ⟨b1, hb1, f1, _, _, _, _, _, f7⟩ := setLen_weak m h n hn
   rw [hb] at hb1; cases hb1
   intro hi
@@ -761,60 +782,75 @@ theorem setLen_breaks_inv (m : Mode) {b b' : RLBuilder} (h : RlInv b) (n : Nat) 
   rw [f7 hlt, f1] at this
   simp at this; omega
 
-/-- F9, concrete witness: after `set_len(10)` on a fresh builder, the run `[10, 15)` is recorded as
-starting at position 0. -/
+/-- F9, concrete witness: after the original `set_len(10)` on a fresh builder, the run `[10, 15)` is
+recorded as starting at position 0. -/
 theorem f9_witness :
-    ∃ b1 b2, ({} : RLBuilder).setLen .checked 10 = ok b1 ∧ b1.trySet .checked 10 5 = ok b2 ∧
+    ∃ b1 b2, ({} : RLBuilder).setLenOld .checked 10 = ok b1 ∧ b1.trySet .checked 10 5 = ok b2 ∧
       b2.run = (0, 5) ∧ b2.len = 15 ∧ b2.ones = 5 ∧ ¬ RlInv b2 := by
   refine ⟨{ len := 10 }, { len := 15, ones := 5, run := (0, 5) }, by decide, by decide, rfl, rfl, rfl, ?_⟩
   intro h; have := h.run_end; revert this; decide
 
 /-- the same in wrapping arithmetic -/
 theorem f9_witness_wrapping :
-    ∃ b1 b2, ({} : RLBuilder).setLen .wrapping 10 = ok b1 ∧ b1.trySet .wrapping 10 5 = ok b2 ∧
+    ∃ b1 b2, ({} : RLBuilder).setLenOld .wrapping 10 = ok b1 ∧ b1.trySet .wrapping 10 5 = ok b2 ∧
       b2.run = (0, 5) ∧ b2.len = 15 := by
   refine ⟨{ len := 10 }, { len := 15, ones := 5, run := (0, 5) }, by decide, by decide, rfl, rfl⟩
 
-end RL
+/-- the repaired `set_len` differs from the original one only in the pending run -/
+theorem setLen_eq_setLenOld (m : Mode) (b : RLBuilder) (n : Nat) :
+    b.setLen m n = (do let b' ← b.setLenOld m n
+                       return (if n > b.len then { b' with run := (n, 0) } else b')) := by
+  unfold RLBuilder.setLen RLBuilder.setLenOld
+  by_cases hc : n > b.len
+  · simp only [if_pos hc]
+    cases b.flush m with
+    | ok b0 => rfl
+    | fault f => rfl
+  · simp only [if_neg hc]; rfl
 
-end Sds.BuildersProofs
-
-/-- the repaired `set_len`: like `RLBuilder.setLen`, but the (now empty) pending run is moved to the
-new length -/
-def Sds.RLBuilder.setLenFixed (m : Sds.Mode) (b : Sds.RLBuilder) (len : Nat) : Sds.Outcome Sds.RLBuilder :=
-  if len > b.len then do
-    let b ← b.flush m
-    return { b with len := len, run := (len, 0) }
-  else .ok b
-
-namespace Sds.BuildersProofs
-open Sds Outcome
-
-/-- with the repaired `set_len` the same history records the run at position 10 -/
+/-- with the repaired `set_len` (the model's `RLBuilder.setLen`) the same history records the run at
+position 10 -/
 theorem f9_fixed_witness :
-    ∃ b1 b2, ({} : RLBuilder).setLenFixed .checked 10 = ok b1 ∧ b1.trySet .checked 10 5 = ok b2 ∧
+    ∃ b1 b2, ({} : RLBuilder).setLen .checked 10 = ok b1 ∧ b1.trySet .checked 10 5 = ok b2 ∧
       b2.run = (10, 5) ∧ b2.len = 15 ∧ b2.ones = 5 ∧ RlInv b2 := by
   refine ⟨{ len := 10, run := (10, 0) }, { len := 15, ones := 5, run := (10, 5) },
     by decide, by decide, rfl, rfl, rfl, ?_⟩
   refine ⟨by decide, ?_, ?_, ?_, ?_⟩ <;> decide
 
-/-- the repaired `set_len` preserves the invariant, never faults, and never decreases `len` -/
+/-- … in wrapping arithmetic as well -/
+theorem f9_fixed_witness_wrapping :
+    ∃ b1 b2, ({} : RLBuilder).setLen .wrapping 10 = ok b1 ∧ b1.trySet .wrapping 10 5 = ok b2 ∧
+      b2.run = (10, 5) ∧ b2.len = 15 ∧ b2.ones = 5 := by
+  refine ⟨{ len := 10, run := (10, 0) }, { len := 15, ones := 5, run := (10, 5) },
+    by decide, by decide, rfl, rfl, rfl⟩
+
+/-- the repaired `set_len` preserves the invariant, never faults (in either arithmetic mode), never
+decreases `len`, keeps `ones`, and parks the empty pending run at the new length -/
 theorem setLenFixed_spec (m : Mode) {b : RLBuilder} (h : RlInv b) (n : Nat) (hn : n < U64) :
-    ∃ b', b.setLenFixed m n = ok b' ∧ RlInv b' ∧ b'.len = max b.len n ∧ b'.ones = b.ones := by
-  unfold RLBuilder.setLenFixed
+    ∃ b', b.setLen m n = ok b' ∧ RlInv b' ∧ b'.len = max b.len n ∧ b'.ones = b.ones ∧
+      (b.len < n → b'.run = (n, 0)) := by
+  unfold RLBuilder.setLen
   by_cases hc : n > b.len
   · rw [if_pos hc]
     obtain ⟨b0, hb0, f1, f2, f3, f4, f5⟩ := flush_spec m h
     rw [hb0]
     simp only [bind_ok, pure_eq]
     have := h.ones_le
-    refine ⟨_, rfl, ⟨hn, ?_, Nat.zero_le _, rfl, ?_⟩, ?_, f2⟩
+    refine ⟨_, rfl, ⟨hn, ?_, Nat.zero_le _, rfl, ?_⟩, ?_, f2, fun _ => rfl⟩
     · show b0.ones ≤ n; omega
     · show b0.tail ≤ n; omega
     · show n = max b.len n; omega
   · rw [if_neg hc]
     have := h.len_lt
-    exact ⟨b, rfl, h, by omega, rfl⟩
+    exact ⟨b, rfl, h, by omega, rfl, fun h' => absurd h' hc⟩
+
+/-- the repaired `set_len` preserves the invariant -/
+theorem setLen_inv (m : Mode) {b b' : RLBuilder} (h : RlInv b) (n : Nat) (hn : n < U64)
+    (hb : b.setLen m n = ok b') : RlInv b' := by
+  obtain ⟨b1, hb1, hi, _⟩ := setLenFixed_spec m h n hn
+  rw [hb] at hb1; cases hb1; exact hi
+
+end RL
 
 end Sds.BuildersProofs
 
@@ -823,21 +859,39 @@ end Sds.BuildersProofs
 namespace Sds.BuildersProofs
 open Sds Outcome
 
-/-- one builder call (`bit i` is `try_set(i, 1)`); `fixed` selects the repaired `set_len` -/
-def applyCall (fixed : Bool) (m : Mode) (b : RLBuilder) : RL.BCall → Outcome RLBuilder
+/-- one builder call under the model's current definitions (`bit i` is `try_set(i, 1)`) -/
+def applyCall (m : Mode) (b : RLBuilder) : RL.BCall → Outcome RLBuilder
   | .set start len => b.trySet m start len
-  | .setLen n => if fixed then b.setLenFixed m n else b.setLen m n
+  | .setLen n => b.setLen m n
+  | .bit i => b.trySet m i 1
+
+/-- the same with `set_len` as first written (F9) -/
+def applyCallOld (m : Mode) (b : RLBuilder) : RL.BCall → Outcome RLBuilder
+  | .set start len => b.trySet m start len
+  | .setLen n => b.setLenOld m n
   | .bit i => b.trySet m i 1
 
 /-- a history of calls by a caller that ignores `Err` results (keeping the old builder); any other
 fault (a panic) aborts the history -/
-def rlRun (fixed : Bool) (m : Mode) : List RL.BCall → RLBuilder → Outcome RLBuilder
+def rlRunWith (ap : RLBuilder → RL.BCall → Outcome RLBuilder) : List RL.BCall → RLBuilder → Outcome RLBuilder
   | [], b => ok b
   | c :: cs, b =>
-    match applyCall fixed m b c with
-    | ok b' => rlRun fixed m cs b'
-    | fault (.err _) => rlRun fixed m cs b
+    match ap b c with
+    | ok b' => rlRunWith ap cs b'
+    | fault (.err _) => rlRunWith ap cs b
     | fault f => fault f
+
+/-- histories under the model's current definitions -/
+def rlRun (m : Mode) : List RL.BCall → RLBuilder → Outcome RLBuilder := rlRunWith (applyCall m)
+
+/-- histories with the original `set_len` -/
+def rlRunOld (m : Mode) : List RL.BCall → RLBuilder → Outcome RLBuilder := rlRunWith (applyCallOld m)
+
+theorem rlRun_cons (m : Mode) (c : RL.BCall) (cs : List RL.BCall) (b : RLBuilder) :
+    rlRun m (c :: cs) b = (match applyCall m b c with
+      | ok b' => rlRun m cs b'
+      | fault (.err _) => rlRun m cs b
+      | fault f => fault f) := rfl
 
 /-- the arguments are `usize` values -/
 def argsOk : RL.BCall → Prop
@@ -845,12 +899,12 @@ def argsOk : RL.BCall → Prop
   | .setLen n => n < U64
   | .bit _ => True
 
-/-- **histories with the repaired `set_len`**: any finite list of calls (valid or not) runs to
-completion in both arithmetic modes, keeps the invariant, and never shortens the vector or loses
-ones. -/
+/-- **histories**: under the model's current definitions (repaired `set_len`) any finite list of
+builder calls `try_set` / `set_len` / `set_bit` with `usize` arguments (valid or not) runs to completion
+in both arithmetic modes, keeps the invariant, and never shortens the vector or loses ones. -/
 theorem rlRun_fixed (m : Mode) : ∀ (cs : List RL.BCall) {b : RLBuilder}, RlInv b →
     (∀ c ∈ cs, argsOk c) →
-    ∃ b', rlRun true m cs b = ok b' ∧ RlInv b' ∧ b.len ≤ b'.len ∧ b.ones ≤ b'.ones := by
+    ∃ b', rlRun m cs b = ok b' ∧ RlInv b' ∧ b.len ≤ b'.len ∧ b.ones ≤ b'.ones := by
   intro cs
   induction cs with
   | nil => intro b h _; exact ⟨b, rfl, h, Nat.le_refl _, Nat.le_refl _⟩
@@ -871,44 +925,43 @@ theorem rlRun_fixed (m : Mode) : ∀ (cs : List RL.BCall) {b : RLBuilder}, RlInv
         by_cases h0 : len = 0
         · rw [hz h0]; exact Nat.le_refl _
         · have := (hlen (by omega)).1; omega
-    have hstep : (∃ k, applyCall true m b c = fault (.err k)) ∨
-        (∃ b1, applyCall true m b c = ok b1 ∧ RlInv b1 ∧ b.len ≤ b1.len ∧ b.ones ≤ b1.ones) := by
+    have hstep : (∃ k, applyCall m b c = fault (.err k)) ∨
+        (∃ b1, applyCall m b c = ok b1 ∧ RlInv b1 ∧ b.len ≤ b1.len ∧ b.ones ≤ b1.ones) := by
       cases c with
       | set start len => exact hset start len hc
       | bit i => exact hset i 1 (by decide)
       | setLen n =>
         right
-        obtain ⟨b1, hb1, hi1, hl1, ho1⟩ := setLenFixed_spec m h n hc
+        obtain ⟨b1, hb1, hi1, hl1, ho1, _⟩ := setLenFixed_spec m h n hc
         exact ⟨b1, hb1, hi1, by omega, by omega⟩
     rcases hstep with ⟨k, hk⟩ | ⟨b1, hb1, hi1, hl1, ho1⟩
     · obtain ⟨b', hb', hi', hl', ho'⟩ := ih h hrest
       refine ⟨b', ?_, hi', hl', ho'⟩
-      show (match applyCall true m b c with
-        | ok b' => rlRun true m cs b'
-        | fault (.err _) => rlRun true m cs b
-        | fault f => fault f) = ok b'
-      rw [hk]; exact hb'
+      rw [rlRun_cons, hk]; exact hb'
     · obtain ⟨b', hb', hi', hl', ho'⟩ := ih hi1 hrest
       refine ⟨b', ?_, hi', by omega, by omega⟩
-      show (match applyCall true m b c with
-        | ok b' => rlRun true m cs b'
-        | fault (.err _) => rlRun true m cs b
-        | fault f => fault f) = ok b'
-      rw [hb1]; exact hb'
+      rw [rlRun_cons, hb1]; exact hb'
 
-/-- with the original `set_len` the same statement is false: a two-call history from the empty
-builder leaves the invariant (F9) -/
+/-- the headline statement for a fresh builder -/
+theorem rlRun_fixed_default (m : Mode) (cs : List RL.BCall) (hargs : ∀ c ∈ cs, argsOk c) :
+    ∃ b', rlRun m cs {} = ok b' ∧ RlInv b' := by
+  obtain ⟨b', hb', hi', _⟩ := rlRun_fixed m cs rlInv_default hargs
+  exact ⟨b', hb', hi'⟩
+
+/-- with the original `set_len` (`setLenOld`) the same statement is false: a two-call history from the
+empty builder leaves the invariant (F9) -/
 theorem rlRun_original_breaks :
-    ∃ b', rlRun false .checked [.setLen 10, .set 10 5] {} = ok b' ∧ ¬ RlInv b' ∧ b'.run = (0, 5) := by
+    ∃ b', rlRunOld .checked [.setLen 10, .set 10 5] {} = ok b' ∧ ¬ RlInv b' ∧ b'.run = (0, 5) := by
   refine ⟨{ len := 15, ones := 5, run := (0, 5) }, by decide, ?_, rfl⟩
   intro h; have := h.run_end; revert this; decide
 
+/-- the same history under the model's current definitions -/
 theorem rlRun_fixed_same_history :
-    ∃ b', rlRun true .checked [.setLen 10, .set 10 5] {} = ok b' ∧ RlInv b' ∧ b'.run = (10, 5) := by
+    ∃ b', rlRun .checked [.setLen 10, .set 10 5] {} = ok b' ∧ RlInv b' ∧ b'.run = (10, 5) := by
   obtain ⟨b', hb', hi', _⟩ := rlRun_fixed .checked [.setLen 10, .set 10 5] rlInv_default
     (by intro c hc; simp at hc; rcases hc with rfl | rfl <;> (show _ < U64; decide))
   refine ⟨b', hb', hi', ?_⟩
-  have : rlRun true .checked [.setLen 10, .set 10 5] {} =
+  have : rlRun .checked [.setLen 10, .set 10 5] {} =
       ok { len := 15, ones := 5, run := (10, 5) } := by decide
   rw [this] at hb'; cases hb'; rfl
 
